@@ -36,11 +36,17 @@ struct C07 : Check {
 		int nw = (int) r.range(1, 7);
 		for (int i = 0; i < nw; i++) {
 			if (i) s += r.chance(1, 6) ? "\t" : r.chance(1, 5) ? "  " : " ";
-			int w = (int) r.below(12);
+			int w = (int) r.below(13);
 			static const char *ws[] = {"foo", "bar.baz", "x", "(a[1])", "{b}", "a_b", "qux,", "--", "if(x)", "z9"};
 			if (w < 10) s += ws[w];
 			else if (w == 10) s += utf8_enc(0xe9) + "t" + utf8_enc(0x4e2d) + utf8_enc(0x6587);
-			else s += "o" + utf8_enc(0x301) + "k";
+			else if (w == 11) s += "o" + utf8_enc(0x301) + "k";
+			else {
+				// double-width characters from every block of the width table: Hangul Jamo and syllables, kana,
+				// CJK extension A, compatibility ideographs, fullwidth forms
+				static const unsigned wide[] = {0x1100, 0xd55c, 0xae00, 0x3042, 0x30ab, 0x3400, 0xf900, 0xff21, 0xff42, 0xa000};
+				s += utf8_enc(wide[r.below(10)]) + utf8_enc(wide[r.below(10)]) + "a";
+			}
 		}
 		if (r.chance(1, 8)) s = "\t" + s;
 		if (r.chance(1, 8)) s = "  " + s;
